@@ -52,7 +52,7 @@ pub(crate) fn inject(prop: &str, s: &mut Scenario, r: &mut Rng, pool: &[KeyInfo]
         "C01" => &["caller_empty", "caller_superset", "caller_disjoint", "caller_alias", "caller_alias_described", "caller_alias_described", "owner_sig_missing", "owner_sig_corrupt", "owner_sig_mislabel", "owner_sig_duplicated", "owner_sig_duplicated_apart", "layout_tampered", "layout_command_resplit", "not_a_layout", "extra_sig", "layout_keys_refiled", "layout_keys_refiled", "none"],
         "C06" => &["expired_1s", "expired_long", "expired_centuries", "expires_now", "expires_plus1", "expires_far_future", "offset_notation", "offset_expired", "sub_expired", "sub_expired_surplus", "sub_expired_surplus", "none"],
         "C02" => &["link_removed", "link_wrong_signer", "link_mislabel", "link_tampered", "link_corrupt", "link_unauthorized", "key_not_in_table", "link_garbage", "link_misfiled", "link_cosigned_forgery", "cosigned_next_to_differing", "threshold_zero_nolinks", "threshold_zero_norules", "threshold_zero_norules", "threshold_zero_onelink", "threshold_raised", "link_wrong_type", "ghost_authorized_prefix", "ghost_authorized_prefix", "twin_unauthorized", "twin_unauthorized", "duplicate_step_unmet", "duplicate_step_unmet", "none"],
-        "C07" => &["disagree_product_digest", "disagree_material_path", "disagree_extra_entry", "disagree_t1", "agree_extra_differs", "cosigned_next_to_differing", "disagree_path_spelling", "disagree_alias_entry", "disagree_algorithm_set", "disagree_algorithm_set", "disagree_empty_entry", "disagree_moved_across", "disagree_moved_across", "none"],
+        "C07" => &["disagree_product_digest", "disagree_material_path", "disagree_extra_entry", "disagree_t1", "agree_extra_differs", "cosigned_next_to_differing", "disagree_path_spelling", "disagree_alias_entry", "disagree_algorithm_set", "disagree_algorithm_set", "disagree_empty_entry", "disagree_moved_across", "disagree_moved_across", "disagree_missing_entry", "disagree_missing_entry", "none"],
         "C13" => &["differing_links_t1", "differing_links_t1_rules", "none", "nested_namesake", "nested_namesake", "nested_namesake", "link_removed", "disagree_product_digest", "disagree_extra_entry", "cosigned_next_to_differing", "cosigned_next_to_differing", "digest_partial_agreement", "digest_partial_agreement"],
         "C08" => &["insp_exit", "insp_notfound", "insp_rule", "insp_rule_named_like_step", "pre_expired", "pre_badsig", "pre_link_removed", "pre_rule", "pre_disagree", "sub_expired", "sub_expired_surplus", "sub_expired_surplus", "sub_insp_exit_surplus", "sub_insp_exit_surplus", "sub_rule_surplus", "sub_tampered", "none"],
         "C15" => &["no_steps", "no_steps_inner", "sub_wrong_signer", "sub_expired", "sub_missing_link", "sub_links_in_parent", "sub_rule", "sub_unauthorized_inner", "sub_tampered", "sub_insp_exit", "sub_insp_rule", "sub_dir_misnamed", "sub_dir_misnamed", "sub_misfiled", "sub_misfiled", "sub_rule_surplus", "sub_missing_link_surplus", "sub_expired_surplus", "sub_insp_exit_surplus", "none"],
@@ -569,8 +569,12 @@ pub(crate) fn inject_kind(prop: &str, kind: &str, s: &mut Scenario, r: &mut Rng,
         }
         // ---------------------------------------------------------------- C07 / C13
         "disagree_product_digest" | "disagree_material_path" | "disagree_extra_entry" | "disagree_t1" | "agree_extra_differs" | "pre_disagree" | "differing_links_t1" | "differing_links_t1_rules"
-        | "disagree_path_spelling" | "disagree_alias_entry" | "disagree_algorithm_set" | "disagree_empty_entry" | "disagree_moved_across" => {
+        | "disagree_path_spelling" | "disagree_alias_entry" | "disagree_algorithm_set" | "disagree_empty_entry" | "disagree_moved_across" | "disagree_missing_entry" => {
             let l = layout_mut(&mut s.block)?.clone();
+            // (C08's "the links disagree" is any of the ways two recordings can differ: a digest, an entry
+            // more - in the materials or in the products - or an entry less)
+            let pre = kind == "pre_disagree";
+            let kind = if pre { *r.pick(&["pre_disagree", "disagree_extra_entry", "disagree_material_path", "disagree_missing_entry"]) } else { kind };
             let want_t2 = !matches!(kind, "disagree_t1" | "differing_links_t1" | "differing_links_t1_rules");
             let si = (0..l.steps.len()).find(|&i| {
                 let ev = evidence_files(&s.dir, &l.steps[i].name);
@@ -670,6 +674,15 @@ pub(crate) fn inject_kind(prop: &str, kind: &str, s: &mut Scenario, r: &mut Rng,
                         "disagree_extra_entry" | "disagree_t1" => {
                             lk.prods.push(("extra-product".into(), 2));
                         }
+                        "disagree_missing_entry" => {
+                            // one recording lacks an entry the others have (everything it reports, they report too)
+                            let arts = if !lk.prods.is_empty() && (lk.mats.is_empty() || r.chance(1, 2)) { &mut lk.prods } else { &mut lk.mats };
+                            if arts.is_empty() {
+                                return None;
+                            }
+                            let i = r.below(arts.len());
+                            arts.remove(i);
+                        }
                         "disagree_moved_across" => {
                             // the same artifacts, but reported on the other side of the step: all
                             // materials as products, or all products as materials
@@ -714,7 +727,7 @@ pub(crate) fn inject_kind(prop: &str, kind: &str, s: &mut Scenario, r: &mut Rng,
                     }
                     None
                 }
-                "pre_disagree" => Some(("C08", format!("links of a multi-party step disagree ({})", l.steps[si].name), true)),
+                _ if pre => Some(("C08", format!("links of a multi-party step disagree [{}] ({})", kind, l.steps[si].name), true)),
                 _ => Some(("C07", format!("links of a multi-party step disagree [{}] ({})", kind, l.steps[si].name), true)),
             }
         }
@@ -991,6 +1004,17 @@ pub fn run(cfg: &Cfg, prop: &str) {
         let mut g = Gen { r: &mut r, pool: &pool, insp_counter, force_delegate: prop == "C15" || ((prop == "C06" || prop == "C08" || prop == "C13") && i % 3 == 0), multi_party: (prop == "C07" && i % 3 != 0) || (prop == "C13" && i % 3 == 1), co_delegate: prop == "C15" && i % 3 == 0, now: base_now(), reuse_keys: vec![], inner_insp_always: siblings };
         let mut s = g.valid(depth, allow_insp);
         insp_counter = g.insp_counter;
+        // (C06: where the verifier sits - zones west and east of Greenwich, whole and fractional hours)
+        if prop == "C06" {
+            *crate::e2e::PROCESS_TZ.lock().unwrap() = match i % 6 {
+                0 => None,
+                1 => Some("EST5".into()),
+                2 => Some("<-11>11".into()),
+                3 => Some("<+0530>-5:30".into()),
+                4 => Some("<+14>-14".into()),
+                _ => Some("PST8PDT,M3.2.0,M11.1.0".into()),
+            };
+        }
         if prop == "C08" {
             // make sure there is an inspection to speak about
             if let SMeta::Layout(l) = &mut s.block.meta {
@@ -1019,12 +1043,23 @@ pub fn run(cfg: &Cfg, prop: &str) {
         // history: the fault-free scenario is verified first in the same process (as a verifier that
         // meets the genuine metadata before a manipulated copy of it would), so that anything remembered
         // from one verification to the next is in place when the faulty one runs
+        // - and at the same place: the faulty scenario replaces the genuine one in the very directory that
+        // was just verified (same paths; files of unchanged size keep their modification time)
+        let mut place = None;
         if !s.faults.is_empty() && (prop == "C01" || i % 2 == 0) {
-            let b = crate::e2e::run(&pool, &base);
+            let here = tempfile::Builder::new().prefix("itv-e2e-place-").tempdir().unwrap();
+            let b = crate::e2e::run_at(&pool, &base, here.path(), false);
             sink.stat(if b.ok { "history/base-ok" } else { "history/base-err" });
             sink.oracle(!b.panicked, "verification panicked", &b.op);
+            if i % 4 != 2 {
+                place = Some(here);
+            }
         }
-        let out = crate::e2e::run(&pool, &s);
+        let out = match &place {
+            Some(here) => crate::e2e::run_at(&pool, &s, here.path(), false),
+            None => crate::e2e::run(&pool, &s),
+        };
+        drop(place);
         let fatal: Vec<&Fault> = s.faults.iter().filter(|f| f.2).collect();
         let class = if s.faults.is_empty() { "valid".to_string() } else { s.faults.iter().map(|f| f.0).collect::<Vec<_>>().join("+") };
         sink.stat(&format!("{}/{}", class, if out.panicked { "panic" } else if out.ok { "ok" } else { "err" }));
@@ -1086,6 +1121,7 @@ pub fn run(cfg: &Cfg, prop: &str) {
             }
         }
     }
+    *crate::e2e::PROCESS_TZ.lock().unwrap() = None;
     if prop == "C06" {
         // how an expiry text becomes an instant: chrono's reader and the layout reader against Model/Time.lean
         crate::timegen::run_time_cases(&mut sink, &mut r, if cfg.thorough { 20000 } else { 1500 });
